@@ -68,9 +68,9 @@ FailSafe == Ended => outcome \notin {"crash", "nonfinite"}
 \* stages are never revisited and the run stops at the first firing stage
 StopsAtFirst == Ended => \A s \in faults : (SiteKind[s] # "report" /\ fired # 0) => SiteStage[fired] <= SiteStage[s]
 TypeOK == stage \in 0..NStages /\ fired \in 0..NSites
-\* every option is validated before anything is printed: a diagnostic (or usage error) can only come from a stage
-\* before the first report text (the option stages, or setting the frequency / solving in the first step: a
-\* singular matrix), so it is never preceded by a part of the report
+\* every option is validated before the loop; inside the loop only setting the frequency and solving can end in a
+\* diagnostic (singular matrix, no input power), and the report is printed after the loop: a diagnostic (or usage
+\* error) is never preceded by a part of the report
 StageIdx(name) == CHOOSE k \in 1..NStages : StageNames[k] = name
 DiagBeforeOutput == \A s \in Sites : SiteKind[s] \in {"diag", "usage"} => SiteStage[s] < StageIdx("step_fields")
 \* ... and a run that ended with a diagnostic stopped before anything was printed
